@@ -543,6 +543,10 @@ class World:
         return value
 
     # -- store state ----------------------------------------------------------
+    def tick_dt(self, t):
+        """The datetime of logical tick t in this world's stores' time scale."""
+        return tick_to_dt(t)
+
     def set_source(self, i, version=None):
         """(Re)write a pure source's content: a new logical time."""
         v = self.src_version.get(i, 0) + 1 if version is None else version
@@ -665,7 +669,7 @@ class World:
         if cfg.get("retry") is not None:
             kwargs["retry"] = make_retry(cfg["retry"])
         if cfg.get("fresh") is not None:
-            ft = tick_to_dt(cfg["fresh"])
+            ft = self.tick_dt(cfg["fresh"])
             kwargs["fresh_time"] = ft
         if cfg.get("stale_workers") is not None:
             kwargs["stale_check_max_workers"] = cfg["stale_workers"]
